@@ -121,7 +121,9 @@ def jobs(tier, seed=0):
     # second run is written over one that already exists
     res.append(dict(cc="USA", preset="nw_large_animal_350kg", options=copy.deepcopy(V["nw_large_animal_350kg"])))
     # every documented shut-off schedule appears at least once whatever the seed
-    for cc, name in (("ARG", "nw_shutoff_one_month_delayed_shutoff"), ("EST", "nw_shutoff_short_delayed_shutoff"), ("ZAF", "nw_shutoff_immediate")):
+    # (PAK under the short schedule: the one cell found where the re-timing of the feed round's meat really moves meat between months)
+    for cc, name in (("ARG", "nw_shutoff_one_month_delayed_shutoff"), ("EST", "nw_shutoff_short_delayed_shutoff"), ("ZAF", "nw_shutoff_immediate"),
+                     ("PAK", "nw_shutoff_short_delayed_shutoff")):
         res.append(dict(cc=cc, preset=name, options=copy.deepcopy(V[name])))
     # an explicit threshold together with a shut-off schedule that carries its own default threshold
     res.append(dict(cc="ECU", preset="ms_worst_T60", options=dict(copy.deepcopy(P["ms_worst"]), MINIMUM_PERCENT_FED_BEFORE_NONHUMAN_CONSUMPTION_ALLOWED=60)))
